@@ -299,6 +299,9 @@ def apply(m: Model, op):
     elif k == "rename":
         m.move(op[1], op[2])
     elif k == "moveout":
+        if not hasattr(m, "origin"):
+            m.origin = {}
+        m.origin[OUT + "/" + op[2]] = op[1]
         m.move(op[1], OUT + "/" + op[2])
     elif k == "moveback":
         m.move(op[1], op[2])
@@ -316,6 +319,9 @@ def apply(m: Model, op):
         m.remove(op[1])
     elif k == "out_mkdir":
         m.add(op[1], "d")
+
+
+RETURN_HOME = False  # set by the C07 scenario only (see valid(), moveback)
 
 
 def valid(m: Model, op, paced=True, paced_out=True):
@@ -398,7 +404,10 @@ def valid(m: Model, op, paced=True, paced_out=True):
     if k == "moveback":
         s = op[1]
         # the directory itself may move again right after it arrived outside; its contents are not touched
-        return s in t and parent(s) == OUT and t[s][0] in ("d", "f") and free_name(op[2]) and is_under(op[2], ROOT)
+        # (RETURN_HOME, C07 only: the entry may come straight back to the very path it left, pairing delay still running -
+        # a liveness shape; the replay and contract oracles do not judge it, C01's pacing condition excludes it)
+        home = RETURN_HOME and getattr(m, "origin", {}).get(s) == op[2] and op[2] not in t and parent(op[2]) in t and t[parent(op[2])][0] == "d"
+        return s in t and parent(s) == OUT and t[s][0] in ("d", "f") and (free_name(op[2]) or home) and is_under(op[2], ROOT)
     if k == "movein_file":
         return free_name(op[2]) and is_under(op[2], ROOT)
     if k == "movein_tree":
